@@ -195,6 +195,59 @@ def apply(raw, mf, mv):
     return raw
 
 
+def param_roles(raw):
+    """[(fn path, binding id, old name, new name)]: in a function with exactly one parameter of the key type (`P`, `&P`) that
+    parameter is called `prefix`; with exactly one parameter of the value type `T` it is called `value`.  (Parameter names
+    of public functions are not part of the API; rules name the query / payload by role.)"""
+    out = []
+    fns = {f["path"]: f for f in raw["fns"]}
+    for b in raw["bodies"]:
+        if b.get("kind") == "closure" or b["path"] not in fns:
+            continue
+        f = fns[b["path"]]
+        gen = {g["name"] for g in f.get("generics", []) if g["kind"] == "type"}
+        keyp = [pr["s"].split(":")[0].strip() for pr in f.get("preds", []) if (pr.get("trait") or "").endswith("prefix::Prefix")]
+        binds = [(q["pat"], raw["types"][q["ty"]]) for q in b["thir"]["params"] if q.get("pat") and q["pat"]["k"] == "Bind"]
+        names = {pt["name"] for pt, _ in binds}
+
+        def peeled(t):
+            while t["t"] == "ref":
+                t = raw["types"][t["i"]]
+            return t
+        for role, want in (("prefix", lambda t: t["t"] == "param" and t["s"] in keyp and t["s"] in ("P",)),
+                           ("value", lambda t: t["t"] == "param" and t["s"] == "T" and "T" not in keyp)):
+            m = [pt for pt, ty in binds if want(peeled(ty))]
+            if len(m) == 1 and m[0]["name"] != role and role not in names and m[0]["name"] != "self":
+                out.append((b["path"], m[0]["id"], m[0]["name"], role))
+    return out
+
+
+def apply_params(raw, ren):
+    if not ren:
+        return raw
+    by_fn = {}
+    for path, vid, old, new in ren:
+        by_fn.setdefault(path, {})[vid] = (old, new)
+    for b in raw["bodies"]:
+        base = b["path"].split("::{closure")[0]
+        m = by_fn.get(base)
+        if not m:
+            continue
+        stack = [b["thir"]]
+        while stack:
+            x = stack.pop()
+            if isinstance(x, list):
+                stack.extend(x)
+                continue
+            if not isinstance(x, dict):
+                continue
+            if x.get("k") in ("Var", "Bind") and x.get("id") in m and x.get("name") == m[x["id"]][0]:
+                x["name"] = m[x["id"]][1]
+            stack.extend(v for v in x.values() if isinstance(v, (dict, list)))
+    raw.setdefault("canonicalised", {}).update({"%s(%s)" % (p_, o): n for p_, _, o, n in ren})
+    return raw
+
+
 def stack_enum_of(raw, it_adt):
     """the enum stored in the `nodes` vector of a set-operation iterator (directly or as first tuple component)"""
     adts = {a["path"]: a for a in raw["adts"]}
